@@ -63,6 +63,11 @@ class _KeysGetItem:
         return self._d[k]
 
 
+def cbk(kind):
+    """callback kind as recorded in traces / known to the model: 'sfut' (a plain callback returning a future) is a 'sync' one"""
+    return "sync" if kind == "sfut" else kind
+
+
 def _parse_id(name):
     try:
         return int(name.rsplit("-", 1)[1])
@@ -90,6 +95,7 @@ class World:
         self.loop.set_exception_handler(self._exc_handler)
         self.loop.set_task_factory(self._task_factory)
         self.alltasks = []      # every Task object ever created on this loop (strong refs, creation order)
+        self.keep = []          # futures handed out by harness-owned callbacks (kept alive, never resolved)
         self.recording = True
         self.drained = False
         self.loop_errors = []
@@ -110,7 +116,7 @@ class World:
             sp = pr.splan if pr.simple else PLAN_DEFAULT
             pr.ev("init", cls=pr.cfg["cls"], cfgsize=pr.cfg.get("size", -1), ps=str(pr.pool),
                   allps=[str(q.pool) for q in self.pools], sexp=pr.simple_exp if pr.simple else "",
-                  secb=sp["ecb"], sccb=sp["ccb"], sbad=sorted(sp.get("bad", [])),
+                  secb=cbk(sp["ecb"]), sccb=cbk(sp["ccb"]), sbad=sorted(sp.get("bad", [])),
                   ctor=pr.ctor_probe() if pr.simple else [])
 
     def _exc_handler(self, loop, ctx):
@@ -150,7 +156,7 @@ class World:
                 sp = pr.splan if pr.simple else PLAN_DEFAULT
                 pr.ev("init", cls=pr.cfg["cls"], cfgsize=pr.cfg.get("size", -1), ps=str(pr.pool),
                       allps=[str(q.pool) for q in self.pools], sexp=pr.simple_exp if pr.simple else "",
-                      secb=sp["ecb"], sccb=sp["ccb"], sbad=sorted(sp.get("bad", [])),
+                      secb=cbk(sp["ecb"]), sccb=cbk(sp["ccb"]), sbad=sorted(sp.get("bad", [])),
                   ctor=pr.ctor_probe() if pr.simple else [])
             elif c == "arm":
                 # arm an operation at a user-code point: "ecb:3" (exact) or "ecb:*" (next point of that kind)
@@ -524,7 +530,7 @@ class PoolRun:
         me = self
         if kind == "none":
             return None
-        if kind in ("sync", "sraise"):
+        if kind in ("sync", "sraise", "sfut"):
             def cb(tid):
                 tn = asyncio.current_task().get_name()
                 me.ev(which + "_in", id=tid, r=r, tn=tn)
@@ -533,6 +539,12 @@ class PoolRun:
                     me.ev(which + "_out", id=tid, how="exc")
                     raise Boom("%s-%d" % (which, tid))
                 me.ev(which + "_out", id=tid, how="ret")
+                if kind == "sfut":
+                    # a plain callback may return anything - e.g. a future of some background work of the user's: the pool
+                    # calls callbacks, it does not await what a plain function returns
+                    fut = me.loop.create_future()
+                    me.w.keep.append(fut)
+                    return fut
             return cb
 
         async def acb(tid):
@@ -689,7 +701,7 @@ class PoolRun:
             num = op.get("num", 1)
             f.update(r=r, t=-1, kind="start", num=num, nc=1, named=False, gname="", fn="", notcoro=False,
                      exp=[self.simple_exp], ret="",
-                     ecb=self.splan["ecb"], ccb=self.splan["ccb"], bad=sorted(self.splan.get("bad", [])))
+                     ecb=cbk(self.splan["ecb"]), ccb=cbk(self.splan["ccb"]), bad=sorted(self.splan.get("bad", [])))
             self.reqs[r] = {"gname": None}
             ret = pool.start(num)
             f["ret"] = ret
@@ -709,7 +721,7 @@ class PoolRun:
         gname = tpl.get("gname")
         f.update(r=r, t=op["t"], kind=kind, num=tpl["num"], nc=tpl.get("nc", 1), named=gname is not None,
                  gname=gname or "", fn=func.__name__, notcoro=bool(tpl.get("notcoro")), ret="",
-                 ecb=tpl["ecb"], ccb=tpl["ccb"], bad=sorted(tpl.get("bad", [])))
+                 ecb=cbk(tpl["ecb"]), ccb=cbk(tpl["ccb"]), bad=sorted(tpl.get("bad", [])))
         if kind == "apply":
             a, k = self.shape_args(tpl["shape"], r)
             f["exp"] = [repr((a, k))]
